@@ -157,6 +157,7 @@ def cases(rng, tier):
     yield from file_state_matrix(rng, tier)
     yield from file_key_cases(rng, tier)
     yield from refail_cases(rng, tier)
+    yield from higher_order_cases(rng, tier)
     # (6) imports that cannot succeed
     yield from import_cases(rng, tier)
     # (8) the same callees invoked *by a built-in* instead of a call expression: as ㄱㄹ continuation and handler (called
@@ -265,6 +266,23 @@ def refail_cases(rng, tier):
             for f1 in (firsts if tier != 'quick' else rng.sample(firsts, 2)):
                 for th in (thens if tier != 'quick' else rng.sample(thens, 3)):
                     yield Case(program=f"{wr.replace('{B}', b)} ({f1} {th} ㅁㄹㅎㄷ ㅎ) ㅎㄴ", tag='refail-shared')
+
+
+def higher_order_cases(rng, tier):
+    """systematic: every higher-order built-in × empty / one- / two-element sequences × every kind of function argument, in both
+    argument orders and with / without an initial value — the empty-sequence corners are reached only by luck in the random
+    matrix (seeded change S04k: ㅅㄹ without initial value on an empty list, host StopIteration)"""
+    seqs = ["(ㅁㄹㅎㄱ)", "(ㄴ ㅁㄹㅎㄴ)", "(ㄴ ㄷ ㅁㄹㅎㄷ)", "(ㅁㅈㅎㄱ)", "(ㅂㄱㅎㄱ)", "ㄱ"]
+    fns = ["ㄷ", "ㄱ", "ㅁㅈ", "(ㄱㅇㄱ ㄴㅇㄱ ㄷㅎㄷ ㅎ)", "(ㄱㅇㄱ ㅎ)", "(ㅈㅈㅎㄱ ㅎ)", "(ㄷ ㄱ ㄴㄱㅎㄷ)", "ㄴ"]
+    forms = ["{q} {f} ㅁㄷㅎㄷ", "{f} {q} ㅁㄷㅎㄷ", "{q} {f} ㅅㅂㅎㄷ", "{q} {f} ㅅㄹㅎㄷ", "{f} {q} ㅅㄹㅎㄷ", "{q} {f} ㄹ ㅅㄹㅎㄹ", "{f} {q} ㄹ ㅅㄹㅎㄹ",
+             "ㄹ {q} {f} ㅅㄹㅎㄹ", "{q} ㅂㄹㅎㄴ", "{q} ㄱㅁㅎㄴ", "{q} {f} ㄴㄱㅎㄷ", "{q} ({f} ㅁㅂㅎㄴ) ㅎㄴ", "{q} ({f} ㅂㅂㅎㄴ) ㅎㄴ"]
+    for q in seqs:
+        for f in fns:
+            for form in forms:
+                prog = form.format(q=q, f=f)
+                yield Case(program=prog, stdin="in\n", tag='higher-order-corners')
+                if rng.random() < (0.3 if tier == 'quick' else 1.0):
+                    yield Case(program=render(wrap_try(raw("(" + prog + ")"))), stdin="in\n", tag='higher-order-corners-try', monitor='c04_caught')
 
 
 def import_cases(rng, tier):
